@@ -101,10 +101,12 @@ statement after the declarations (F32 repair: it used to come after `opts = GetO
 signal that arrived while the options were being read had its default action); then the options, set-up statements that
 synchronise with nothing; the information model (a global map read by the IPFIX and NetFlow v9 decoders) is replaced by
 `LoadExtElements` BEFORE any run loop is started (F18 repair: it used to be replaced from inside `IPFIX.run()`,
-concurrently with running NetFlow v9 workers); the run loops and, after the signal, the shutdowns are all counted in the
-wait group; `main` returns (exit status 0) after `wg.Wait()` -/
+concurrently with running NetFlow v9 workers), whenever the IPFIX OR the NetFlow v9 listener is switched on (F34 repair: the
+guard used to name the IPFIX switch alone; `C20.gen_load_guard_covers_readers`); the run loops and, after the signal, the
+shutdowns are all counted in the wait group; `main` returns (exit status 0) after `wg.Wait()` -/
 theorem gen_main :
-    mainSteps = [.makeSignalChan 1, .notifySigintSigterm, .getOptions, .setUp, .setUp, .setUp, .loadElements, .setUp,
+    mainSteps = [.makeSignalChan 1, .notifySigintSigterm, .getOptions, .setUp, .setUp, .setUp,
+                 .loadElementsIf ["IPFIXEnabled", "NetflowV9Enabled"], .setUp,
                  .spawnRunsCounted, .spawnStats, .awaitSignal, .spawnShutdownsCounted, .waitAll] := by
   decide
 
@@ -493,7 +495,7 @@ theorem signal_during_options_is_handled :
 /-- `main` as it was before the F32 repair (repository commit 3fdfe98, as this generator extracts it from that tree):
 `signal.Notify` after `opts = GetOptions()` and `runtime.GOMAXPROCS(…)` -/
 def f32_old_main : List MStep :=
-  [.makeSignalChan 1, .getOptions, .setUp, .notifySigintSigterm, .setUp, .setUp, .loadElements, .setUp,
+  [.makeSignalChan 1, .getOptions, .setUp, .notifySigintSigterm, .setUp, .setUp, .loadElementsIf ["IPFIXEnabled"], .setUp,
    .spawnRunsCounted, .spawnStats, .awaitSignal, .spawnShutdownsCounted, .waitAll]
 
 /-- regression witness (the code before the F32 repair): a signal that arrives while `main` is reading its options is
